@@ -138,10 +138,10 @@ Cmp(op, a, b) ==
     ELSE IF a.t # b.t THEN Err
     ELSE CASE op = "EQ" -> B(a.v = b.v)
            [] op = "NE" -> B(a.v # b.v)
-           [] op = "LT" -> IF a.t = "int" THEN B(a.v < b.v) ELSE Err
-           [] op = "LE" -> IF a.t = "int" THEN B(a.v <= b.v) ELSE Err
-           [] op = "GT" -> IF a.t = "int" THEN B(a.v > b.v) ELSE Err
-           [] op = "GE" -> IF a.t = "int" THEN B(a.v >= b.v) ELSE Err
+           [] op = "LT" -> IF a.t \in {"int", "dt"} THEN B(a.v < b.v) ELSE Err
+           [] op = "LE" -> IF a.t \in {"int", "dt"} THEN B(a.v <= b.v) ELSE Err
+           [] op = "GT" -> IF a.t \in {"int", "dt"} THEN B(a.v > b.v) ELSE Err
+           [] op = "GE" -> IF a.t \in {"int", "dt"} THEN B(a.v >= b.v) ELSE Err
 
 Arith(op, a, b) ==
     IF IsErr(a) \/ IsErr(b) THEN Err
@@ -291,6 +291,14 @@ Eval(e, env, d) ==
             LET sub == EvalSelect(e[2], env, d) IN
             IF ~sub.ok THEN Err ELSE B(IF op = "EXISTS" THEN Len(sub.rows) > 0 ELSE Len(sub.rows) = 0)
       [] op = "AS" -> Eval(e[2], env, d)
+      \* datetime +- timedelta; values [t |-> "dt", v |-> minutes since an epoch], [t |-> "td", v |-> minutes]
+      [] op \in {"DATETIME_ADD", "DATETIME_SUB"} ->
+            LET x == Eval(e[2], env, d)
+                y == Eval(e[3], env, d)
+            IN IF IsErr(x) \/ IsErr(y) THEN Err
+               ELSE IF IsNull(x) \/ IsNull(y) THEN Null
+               ELSE IF x.t # "dt" \/ y.t # "td" THEN Err
+               ELSE [t |-> "dt", v |-> IF op = "DATETIME_ADD" THEN x.v + y.v ELSE x.v - y.v]
       [] op = "SUBSTR" ->
             LET x == Eval(e[2], env, d)
                 p == Eval(e[3], env, d)
